@@ -203,6 +203,28 @@ impl C08 {
     if !alts.iter().any(|a| a.2 == gmp) {
       out.fail(env, viol("time", "month_pillar", case, &k, format!("{} +{}s", c.fmt(i), s), pillar_name(exp.2), pillar_name(gmp)));
     }
+    // the month OBJECT handed out by the instant view is the month of that position of that sexagenary year: same
+    // position, and the same months when stepped (across the year's end too) as the independently constructed one
+    if (2..=9996).contains(&gy) && alts.len() == 1 && alts[0].2 == gmp && alts[0].0 == gy {
+      use tyme4rs::tyme::sixtycycle::SixtyCycleMonth as M;
+      use tyme4rs::tyme::Tyme;
+      let want_idx = (gmp % 12 - 2).rem_euclid(12);
+      let desc_m = |m: &M| format!("{} of {} #{}", m, m.get_sixty_cycle_year().get_year(), m.get_index_in_year());
+      let got = guard(|| {
+        let t = SolarTime::from_ymd_hms(y as isize, m as usize, d as usize, (s / 3600) as usize, (s / 60 % 60) as usize, (s % 60) as usize);
+        let mo = t.get_sixty_cycle_hour().get_sixty_cycle_day().get_sixty_cycle_month();
+        [0isize, 1, -1, 12 - want_idx as isize, -(want_idx as isize) - 1, 14].iter().map(|n| desc_m(&mo.next(*n))).collect::<Vec<_>>()
+      });
+      let exp_m = guard(|| { let mo = M::from_index(gy as isize, want_idx as isize); [0isize, 1, -1, 12 - want_idx as isize, -(want_idx as isize) - 1, 14].iter().map(|n| desc_m(&mo.next(*n))).collect::<Vec<_>>() });
+      if let (Ok(a), Ok(b)) = (&got, &exp_m) {
+        out.class("month_object_of_the_instant_view_stepped");
+        if a != b {
+          out.fail(env, viol("time", "month_object_of_instant_view", case, &k, format!("{} +{}s: month object of the instant view stepped by 0, 1, -1, to the next year's first, to the previous year's last, 14", c.fmt(i), s), format!("{:?}", b), format!("{:?}", a)));
+        }
+      } else if let (Err(e2), Ok(b)) = (&got, &exp_m) {
+        out.fail(env, viol("time", "month_object_of_instant_view_panics", case, &k, format!("{} +{}s", c.fmt(i), s), format!("{:?}", b), e2.clone()));
+      }
+    }
     if let Some((dy, dm)) = dv {
       out.class("time_view_compared_with_day_view_on_a_day_without_jie");
       if (dy, dm) != (gyp, gmp) {
